@@ -57,9 +57,9 @@ mod verif_proofs {
         assert!(m.min_first_side_bearing.to_i16() == min_lsb, "VK_ASSERT min_lsb_over_nonempty_glyphs");
         assert!(m.min_second_side_bearing.to_i16() == min_rsb, "VK_ASSERT min_rsb_over_nonempty_glyphs");
         assert!(m.max_extent.to_i16() == max_ext, "VK_ASSERT max_extent_over_nonempty_glyphs");
-        vk_cover!(n_long == 1 && N > 1, "monospaced: one long metric");
-        vk_cover!(n_long == N && N > 1, "no trailing run");
-        vk_cover!(any && !has[0], "first glyph empty, a later one not");
+        vk_cover!(n_long == 1, "monospaced: one long metric");
+        vk_cover!(n_long == N, "no trailing run");
+        vk_cover!(N == 1 || (any && !has[0]), "first glyph empty, a later one not");
         std::mem::forget(m);
     }
 
